@@ -1,4 +1,9 @@
+#[cfg(not(feature = "verif"))]
 use std::{ops::{Index, IndexMut}, sync::{Arc, RwLock}};
+#[cfg(feature = "verif")]
+use std::{ops::{Index, IndexMut}, sync::Arc};
+#[cfg(feature = "verif")]
+use crate::verif_hooks::RwLock;
 
 use crate::{
     Plaintext, 
@@ -488,6 +493,18 @@ impl KeyGenerator {
     /// Obtain a reference to the secret key.
     pub fn secret_key(&self) -> &SecretKey {
         &self.secret_key
+    }
+
+    /// Verification observer: current length (in words) of the cached secret key powers.
+    #[cfg(feature = "verif")]
+    pub fn verif_secret_key_array_len(&self) -> usize {
+        self.secret_key_array.read().unwrap().len()
+    }
+
+    /// Verification entry point: relinearization keys for `count` secret key powers.
+    #[cfg(feature = "verif")]
+    pub fn verif_create_relin_keys(&self, count: usize, save_seed: bool) -> RelinKeys {
+        self.generate_rlk(count, save_seed)
     }
 
     fn compute_secret_key_array(&self, max_power: usize) {
